@@ -148,8 +148,22 @@ def g_push_children(E, v):
     G.fields["stk_of"].arr = z3.Lambda([c], z3.If(z3.And(c >= 0, c < n, flt.mask.get(c).z), (ln - m) + flt.rho(c), sel(old, c)))
 
 
+def _is_stack_init(txt):
+    """the statement that creates the stack: an assignment (annotated or not) of a one-element list holding a pair `(<root id>, -1)`,
+    whatever the stack and the root id are called / however the root id is spelled (anchor on the statement's shape, not on its names)"""
+    import ast as _ast
+
+    try:
+        st = _ast.parse(txt).body[0]
+    except (SyntaxError, IndexError):
+        return False
+    v = st.value if isinstance(st, (_ast.Assign, _ast.AnnAssign)) else None
+    return (isinstance(v, _ast.List) and len(v.elts) == 1 and isinstance(v.elts[0], _ast.Tuple) and len(v.elts[0].elts) == 2
+            and _ast.unparse(v.elts[0].elts[1]) == "-1")
+
+
 GHOST = [
-    (lambda txt: txt.startswith("s: ") and txt.endswith("= [(first_root, -1)]"), g_init),
+    (_is_stack_init, g_init),
     ("id_map[new_id] = old_id", g_visit),
     (lambda txt: txt.startswith("s.extend("), g_push_children),
 ]
